@@ -365,3 +365,160 @@ func (r *Run) opTables() {
 		}
 	}
 }
+
+// dispatchTables (C02, C03): the three places that decide WHICH operator code runs are tables, and a
+// table is decided entry by entry: (1) the parser switch of ast.go maps each Go operator token to the
+// action of that operator, per syntactic context; (2) the generator table `builtin` of run.go maps each
+// operator action to the generator of the same name; (3) `constOp` of cfg.go maps each operator action to
+// the constant folder of the same name.  A wrong cell (SUB_ASSIGN -> aAddAssign, aShr: shl) type-checks.
+func (r *Run) dispatchTables() {
+	p := r.L.ByName["interp"]
+	if p == nil {
+		return
+	}
+	lower := func(s string) string { return strings.ToLower(s[:1]) + s[1:] }
+	// (2) and (3)
+	ops := []string{"Add", "And", "AndNot", "Mul", "Or", "Quo", "Rem", "Shl", "Shr", "Sub", "Xor"}
+	wantGen := map[string]string{}
+	for _, o := range ops {
+		wantGen["a"+o] = lower(o)
+		wantGen["a"+o+"Assign"] = lower(o) + "Assign"
+	}
+	for _, o := range []string{"BitNot", "Dec", "Inc", "Equal", "NotEqual", "Greater", "GreaterEqual", "Lower", "LowerEqual", "Land", "Lor", "Neg", "Not", "Pos"} {
+		wantGen["a"+o] = lower(o)
+	}
+	wantConst := map[string]string{}
+	for _, o := range append(append([]string{}, ops...), "Not", "BitNot", "Neg", "Pos") {
+		wantConst["a"+o] = lower(o) + "Const"
+	}
+	tables := map[string]map[string]string{"builtin": wantGen, "constOp": wantConst,
+		"constBltn": {"bltnComplex": "complexConst", "bltnImag": "imagConst", "bltnReal": "realConst"}}
+	found := map[string]bool{}
+	for _, f := range p.Syntax {
+		for _, d := range f.Decls {
+			gd, ok := d.(*ast.GenDecl)
+			if !ok {
+				continue
+			}
+			for _, sp := range gd.Specs {
+				vs, ok := sp.(*ast.ValueSpec)
+				if !ok || len(vs.Names) != 1 || len(vs.Values) != 1 {
+					continue
+				}
+				tab := vs.Names[0].Name
+				exp := tables[tab]
+				cl, ok := vs.Values[0].(*ast.CompositeLit)
+				if exp == nil || !ok {
+					continue
+				}
+				found[tab] = true
+				seen := map[string]bool{}
+				for _, el := range cl.Elts {
+					kv, ok := el.(*ast.KeyValueExpr)
+					if !ok {
+						continue
+					}
+					k, v := types.ExprString(kv.Key), types.ExprString(kv.Value)
+					if w, known := exp[k]; known {
+						seen[k] = true
+						r.ground("interp."+tab+"/dispatch["+k+"]", "entry "+k+" of "+tab+" is "+w, v == w, tab+"["+k+"] is "+v)
+					} else if tab != "builtin" {
+						r.ground("interp."+tab+"/only-operators["+k+"]", tab+" has entries for operators only", false, tab+" has an entry for "+k+": "+v)
+					}
+				}
+				var missing []string
+				for k := range exp {
+					if !seen[k] {
+						missing = append(missing, k)
+					}
+				}
+				sort.Strings(missing)
+				r.ground("interp."+tab+"/dispatch-complete", "every operator has an entry in "+tab, len(missing) == 0, "missing: "+strings.Join(missing, ", "))
+				r.FuncsUC = append(r.FuncsUC, "interp."+tab+" (table)")
+			}
+		}
+	}
+	for tab := range tables {
+		if !found[tab] {
+			r.ground("interp."+tab+"/dispatch-complete", "the table "+tab+" exists as a composite literal", false, "not found in the current tree")
+		}
+	}
+	// (1) token -> action, per syntactic context of Interpreter.ast
+	bin := map[string]string{"ADD": "aAdd", "SUB": "aSub", "MUL": "aMul", "QUO": "aQuo", "REM": "aRem", "AND": "aAnd", "OR": "aOr", "XOR": "aXor",
+		"SHL": "aShl", "SHR": "aShr", "AND_NOT": "aAndNot", "LAND": "aLand", "LOR": "aLor", "EQL": "aEqual", "NEQ": "aNotEqual", "LSS": "aLower",
+		"LEQ": "aLowerEqual", "GTR": "aGreater", "GEQ": "aGreaterEqual"}
+	asg := map[string]string{"ASSIGN": "aAssign", "DEFINE": "aAssign"}
+	for _, t := range []string{"ADD", "SUB", "MUL", "QUO", "REM", "AND", "OR", "XOR", "SHL", "SHR", "AND_NOT"} {
+		asg[t+"_ASSIGN"] = bin[t] + "Assign"
+	}
+	want := map[string]map[string]string{
+		"BinaryExpr": bin,
+		"AssignStmt": asg,
+		"IncDecStmt": {"INC": "aInc", "DEC": "aDec"},
+		"UnaryExpr":  {"ADD": "aPos", "SUB": "aNeg", "NOT": "aNot", "XOR": "aBitNot", "AND": "aAddr", "ARROW": "aRecv"},
+	}
+	fd := r.L.FindFunc(p, "Interpreter.ast")
+	if fd == nil {
+		r.engineError("Interpreter.ast does not exist in the current tree")
+		return
+	}
+	seenTok := map[string]map[string]bool{}
+	ast.Inspect(fd.Body, func(n ast.Node) bool {
+		ts, ok := n.(*ast.TypeSwitchStmt)
+		if !ok {
+			return true
+		}
+		for _, cl := range ts.Body.List {
+			cc := cl.(*ast.CaseClause)
+			if len(cc.List) != 1 {
+				continue
+			}
+			ctx := strings.TrimPrefix(types.ExprString(cc.List[0]), "*ast.")
+			exp := want[ctx]
+			if exp == nil {
+				continue
+			}
+			seenTok[ctx] = map[string]bool{}
+			for _, st := range cc.Body {
+				ast.Inspect(st, func(m ast.Node) bool {
+					sw, ok := m.(*ast.SwitchStmt)
+					if !ok || sw.Tag == nil || !(strings.HasSuffix(types.ExprString(sw.Tag), ".Op") || strings.HasSuffix(types.ExprString(sw.Tag), ".Tok")) {
+						return true
+					}
+					for _, c2 := range sw.Body.List {
+						c := c2.(*ast.CaseClause)
+						for _, te := range c.List {
+							tok := strings.TrimPrefix(types.ExprString(te), "token.")
+							got := ""
+							for _, bs := range c.Body {
+								if as, ok := bs.(*ast.AssignStmt); ok && len(as.Lhs) == 1 && types.ExprString(as.Lhs[0]) == "act" {
+									got = types.ExprString(as.Rhs[0])
+								}
+							}
+							w, known := exp[tok]
+							if !known {
+								r.ground("interp.Interpreter.ast/token["+ctx+":"+tok+"]", "only the operator tokens of this context are mapped", false, "token."+tok+" is mapped to "+got)
+								continue
+							}
+							seenTok[ctx][tok] = true
+							r.ground("interp.Interpreter.ast/token["+ctx+":"+tok+"]", "token."+tok+" in an "+ctx+" becomes action "+w, got == w, "token."+tok+" becomes "+got)
+						}
+					}
+					return false
+				})
+			}
+		}
+		return false
+	})
+	for ctx, exp := range want {
+		var missing []string
+		for tok := range exp {
+			if !seenTok[ctx][tok] {
+				missing = append(missing, tok)
+			}
+		}
+		sort.Strings(missing)
+		r.ground("interp.Interpreter.ast/tokens-complete["+ctx+"]", "every operator token of an "+ctx+" is mapped", len(missing) == 0, "missing: "+strings.Join(missing, ", "))
+	}
+	r.FuncsUC = append(r.FuncsUC, "interp.Interpreter.ast (operator token switches)")
+}
